@@ -26,6 +26,7 @@ type Program struct {
 	repoDir  string
 	specDir  string // override dir for contract files (development)
 	pureExt  map[string]bool
+	immutHeaps map[string]bool // field heaps declared immutable
 	models   map[string]modelFn
 }
 
@@ -106,6 +107,33 @@ func loadProgram(repoDir, specDir string, patterns []string) (*Program, error) {
 					P.pureExt[pe] = true
 				}
 				break
+			}
+		}
+	}
+	// immutable fields -> heap names
+	P.immutHeaps = map[string]bool{}
+	for path, ps := range P.specs {
+		sp := P.spkgs[path]
+		for tn, fields := range ps.Immutable {
+			obj := sp.Pkg.Scope().Lookup(tn)
+			if obj == nil {
+				return nil, fmt.Errorf("%s: immutable %s: no such type", ps.File, tn)
+			}
+			st, ok := obj.Type().Underlying().(*types.Struct)
+			if !ok {
+				return nil, fmt.Errorf("%s: immutable %s: not a struct", ps.File, tn)
+			}
+			for _, f := range fields {
+				found := false
+				for i := 0; i < st.NumFields(); i++ {
+					if st.Field(i).Name() == f {
+						P.immutHeaps[fieldHeapName(obj.Type(), i)] = true
+						found = true
+					}
+				}
+				if !found {
+					return nil, fmt.Errorf("%s: immutable %s.%s: no such field", ps.File, tn, f)
+				}
 			}
 		}
 	}
@@ -435,4 +463,18 @@ func builtinModels() map[string]modelFn {
 func (P *Program) model(name string) (modelFn, bool) {
 	f, ok := P.models[name]
 	return f, ok
+}
+
+// calleeByShortName finds a function called (statically) from fn by its short name.
+func (P *Program) calleeByShortName(fn *ssa.Function, name string) *ssa.Function {
+	for _, b := range fn.Blocks {
+		for _, in := range b.Instrs {
+			if c, ok := in.(ssa.CallInstruction); ok {
+				if f := c.Common().StaticCallee(); f != nil && f.Name() == name {
+					return f
+				}
+			}
+		}
+	}
+	return nil
 }
